@@ -416,7 +416,7 @@ def parse_lines(lines):
     return res
 
 
-def e2e_csv_run(ctx, rows, tag):
+def e2e_csv_run(ctx, rows, tag, delimiter=','):
     """rows: list of (id, value, dt-column value). Returns {(id, pred): (lexical, datatype)} or raises."""
     import csv
     import morph_kgc
@@ -424,7 +424,7 @@ def e2e_csv_run(ctx, rows, tag):
     os.makedirs(d, exist_ok=True)
     cp = os.path.join(d, f'd_{tag}.csv')
     with open(cp, 'w', newline='', encoding='utf-8') as f:
-        w = csv.writer(f)
+        w = csv.writer(f, delimiter=delimiter)
         w.writerow(['id', 'v', 'dtc'])
         w.writerows(rows)
     mp = os.path.join(d, f'm_{tag}.ttl')
@@ -453,19 +453,19 @@ def judge_e2e(rows, res, preds, label):
     return found
 
 
-def check_e2e_csv(ctx, good, bad, record=True):
+def check_e2e_csv(ctx, good, bad, record=True, delimiter=','):
     """`good`: well-typed values, `bad`: ill-typed ones; both runs must succeed and the good rows must not depend on the bad ones"""
     rows_all = [(f'g{i}', v, rng_dt) for i, (v, rng_dt) in enumerate(good)] + [(f'b{i}', v, d) for i, (v, d) in enumerate(bad)]
     rows_good = [r for r in rows_all if r[0].startswith('g')]
-    inp = {'kind': 'e2e-csv', 'good': good, 'bad': bad}
+    inp = {'kind': 'e2e-csv', 'good': good, 'bad': bad, 'delimiter': delimiter}
     found = []
     try:
-        res_good = e2e_csv_run(ctx, rows_good, 'good')
+        res_good = e2e_csv_run(ctx, rows_good, 'good', delimiter)
     except Exception as e:
         res_good = None
         found.append(f'[e2e-csv] run over well-typed rows only aborts: {type(e).__name__}: {str(e)[:120]}')
     try:
-        res_all = e2e_csv_run(ctx, rows_all, 'all')
+        res_all = e2e_csv_run(ctx, rows_all, 'all', delimiter)
     except Exception as e:
         res_all = None
         found.append(f'[e2e-csv] ill-typed cells {[b[0] for b in bad][:6]!r} abort the whole run ({type(e).__name__}: {str(e)[:100]}): '
@@ -480,7 +480,7 @@ def check_e2e_csv(ctx, good, bad, record=True):
         found += judge_e2e(rows_good, res_good, E2E_PREDS, 'e2e-csv')
     if record:
         for v, _ in good + bad:
-            ctx.case(['e2e-csv', v], nontrivial=True, kind='e2e-csv')
+            ctx.case(['e2e-csv', delimiter, v], nontrivial=True, kind='e2e-csv' if delimiter == ',' else f'e2e-csv delimiter {delimiter!r} (inferred)')
         ctx.traces_validated += 2
         for w in found:
             ctx.violation(w, inp)
@@ -635,6 +635,13 @@ def run(ctx, lean, findings):
         dts = [INT, BOOL, DT, XSD + 'decimal', 'http://ex/custom']
         check_e2e_csv(ctx, [(v, rng.choice(dts)) for v in good], [(v, rng.choice(dts)) for v in bad])
         check_e2e_sql(ctx, good, bad)
+    # a delimiter other than comma / tab goes through the reader's second attempt (delimiter inference); the value column holds
+    # numeric-looking text only, so a reader that lets pandas choose the column type would re-render every cell
+    for delim in (';', '|'):
+        numeric = ['007', '1.50', '1e5', '0.12345678901234567891', '-0.0', '10.0', '00', '3.0', '1E-2', '0.5', '5.00', '+5', '9007199254740993'] + \
+                  [f'{rng.randrange(1000)}.{rng.randrange(10 ** 6):06d}0' for _ in range(3)] + ['0' * rng.randrange(1, 4) + str(rng.randrange(1, 10 ** 6)) for _ in range(3)]
+        for dt in (XSD + 'decimal', 'http://ex/custom', INT):
+            check_e2e_csv(ctx, [(v, dt) for v in numeric], [], delimiter=delim)
 
 
 def replay(ctx, data):
@@ -651,7 +658,7 @@ def replay(ctx, data):
     if kind == 'rule-terms':
         return bool(check_rule_terms(ctx, inp['datatype_map'], inp['datatype'], inp['values'], dtcol=inp.get('dtcol')))
     if kind == 'e2e-csv':
-        return bool(check_e2e_csv(ctx, [tuple(x) for x in inp['good']], [tuple(x) for x in inp['bad']], record=False))
+        return bool(check_e2e_csv(ctx, [tuple(x) for x in inp['good']], [tuple(x) for x in inp['bad']], record=False, delimiter=inp.get('delimiter', ',')))
     if kind == 'e2e-sql':
         return bool(check_e2e_sql(ctx, inp['good'], inp['bad'], record=False))
     raise ValueError(f'unknown replay kind {kind}')
